@@ -81,27 +81,90 @@ def gen_distfifo(rng, tier):
 
 # ------------------------------------------------------------------ mpmc_stack.h
 
+def _stack_env(rng):
+    """the window of a bounded push (load head .. CAS) is two scheduling points wide and a
+    push_timeout only gives up when somebody else's push or flush lands in EVERY one of its
+    windows: mostly the random scheduler with a switch at (almost) every point"""
+    if rng.random() < 0.6:
+        return {"VR_SEED": rng.randrange(1, 1 << 30), "VR_SCHED": "rand", "VR_BUDGET": 200000,
+                "VR_SWITCH": rng.choice([1, 1, 2, 2, 3])}
+    return _c20_env(rng)
+
+
 def gen_stack(rng, tier):
     cases = []
     for _ in range(n_cases(tier, 260, 4000)):
         nt = rng.choice([2, 3, 3, 4])
         nn = rng.choice([2, 3, 3, 4])
+        # a third of the cases are push storms (every thread mostly pushes): contention on head
+        ppush = 0.85 if rng.random() < 0.33 else 0.6
+        pto = rng.choice([0.25, 0.4, 0.6])
         nxt = 1
         threads = []
         for t in range(nt):
             ops = []
             for _ in range(rng.randrange(3, 9 if tier == "quick" else 14)):
                 x = rng.random()
-                if x < 0.6:
-                    ops.append("p%d" % nxt)
+                if x < ppush:
+                    # a minority of the pushes (over all cases) are mpmc_stack_push_timeout with
+                    # a budget of 1-3 CAS attempts ("t<b>:<v>"); every push attempt, successful
+                    # or not, carries a fresh value (a node whose push gave up stays with the
+                    # thread and is pushed again by its next push op)
+                    if rng.random() < pto:
+                        ops.append("t%d:%d" % (rng.choice([1, 1, 1, 2, 2, 3]), nxt))
+                    else:
+                        ops.append("p%d" % nxt)
                     nxt += 1
-                elif x < 0.85:
+                elif x < ppush + (1 - ppush) * 0.625:
                     ops.append("f")
                 else:
                     ops.append("l")
             threads.append(",".join(ops))
-        cases.append({"args": [_owners(rng, nt, nn), "|".join(threads)], "env": _c20_env(rng)})
+        # storms need every thread to own a node
+        owners = ",".join(str(t % nt) for t in range(max(nn, nt))) if ppush > 0.8 else _owners(rng, nt, nn)
+        cases.append({"args": [owners, "|".join(threads)], "env": _stack_env(rng)})
     return cases
+
+
+def post_stack(log_path, case):
+    """log-level oracle for mpmc_stack_push_timeout (the API cannot observe the attempt budget):
+    between `call pushto <v> <b>` and `ret pushto <r>` the thread makes at most b CAS attempts
+    on head; r = 0 only after exactly b of them, all failed; r = 1 only right after a
+    successful one; r is 0 or 1; no write to head (successful CAS) by an operation that
+    reports 0"""
+    cur = {}
+    try:
+        f = open(log_path)
+    except OSError:
+        return None
+    with f:
+        for line in f:
+            p = line.split()
+            if len(p) < 5 or line.startswith("#"):
+                continue
+            tid, kind = p[0], p[3]
+            if kind == "note" and p[4:6] == ["call", "pushto"] and len(p) >= 8:
+                cur[tid] = {"v": p[6], "b": int(p[7]), "att": 0, "ok": 0}
+            elif kind == "cas" and p[4] == "head" and tid in cur and len(p) >= 9:
+                c = cur[tid]
+                c["att"] += 1
+                c["ok"] += 1 if p[8] == "1" else 0
+                if c["att"] > c["b"]:
+                    return "oracle budget: push_timeout(value %s, tries %d) made CAS attempt number %d" % (
+                        c["v"], c["b"], c["att"])
+            elif kind == "note" and p[4:6] == ["ret", "pushto"] and tid in cur and len(p) >= 7:
+                c = cur.pop(tid)
+                r = p[6]
+                if r not in ("0", "1"):
+                    return "oracle badReturn: push_timeout(value %s) returned %s" % (c["v"], r)
+                if r == "0" and c["ok"]:
+                    return "oracle retryAfterPublish: push_timeout(value %s) returned MPMC_RETRY after its CAS succeeded" % c["v"]
+                if r == "0" and c["att"] != c["b"]:
+                    return "oracle gaveUpEarly: push_timeout(value %s, tries %d) returned MPMC_RETRY after %d CAS attempts" % (
+                        c["v"], c["b"], c["att"])
+                if r == "1" and not c["ok"]:
+                    return "oracle successWithoutPublish: push_timeout(value %s) returned MPMC_SUCCESS without a successful CAS" % c["v"]
+    return None
 
 
 def add_part(part):
@@ -115,7 +178,7 @@ SPEC = {
         "parts": [
             {"name": "lifo", "harness": "lifo", "model": "Lifo", "gen": gen_lifo},
             {"name": "distfifo", "harness": "distfifo", "model": "DistFifo", "gen": gen_distfifo},
-            {"name": "stack", "harness": "stack", "model": "Stack", "gen": gen_stack},
+            {"name": "stack", "harness": "stack", "model": "Stack", "gen": gen_stack, "post": post_stack},
         ],
         "trusted_base": [
             "64-bit wrap-around of the ABA counters not modelled (2^64 successful CAS2s unreachable)",
@@ -125,7 +188,8 @@ SPEC = {
             "client: a thread pushes only a non-NULL node it owns (allocated by it or returned to it by a pop/flush/hand-over)",
             "client: dist_fifo has exactly one pushing thread (documented contract of dist_fifo.h)",
             "client: popped dist_fifo/lifo nodes stay readable (never unmapped) while other threads may hold stale snapshots (dist_fifo.h assumption 1)",
-            "weak CAS of mpmc_stack_push does not fail spuriously on x86-64 (cmpxchg)",
+            "weak CAS of mpmc_stack_push / mpmc_stack_push_timeout does not fail spuriously on x86-64 (cmpxchg)",
+            "client: mpmc_stack_push_timeout is called with tries >= 1 (tries is a size_t decremented before it is tested: tries = 0 wraps to SIZE_MAX attempts, i.e. behaves like the unbounded push)",
         ],
     },
 }
